@@ -307,7 +307,23 @@ class EqObligation(Obligation):
         res["n_eqns"] = it.n_eqns
         res["prims"] = it.prims_seen
         impl_l = flatten_out(impl)
-        spec_l = flatten_out(spec(*syms))
+        try:
+            spec_l = flatten_out(spec(*syms))
+        except JI.Unsupported:
+            raise
+        except Exception as e:
+            # contracts whose right-hand side is itself a run of the real code (mode equivalence: eager vs jit)
+            if _from_checker(e):
+                raise
+            res["status"] = "violated"
+            res["failure"] = "raises"
+            res["detail"] = ("the reference evaluation of the real code (the contract's right-hand side) raises under the precondition: "
+                             + "".join(traceback.format_exception_only(type(e), e)).strip()[:400])
+            self._replay_raises(res, b, seed)
+            if not res["replay"].get("native_disagrees"):
+                res["replay"].update(native_disagrees=True, native="the eager evaluation raises " + type(e).__name__,
+                                     expected="the same value in every mode")
+            return
         res["sample"] = _sample(impl_l)
         # 2. interpreter cross-check against native execution (trusted-base sanity, every run)
         self._crosscheck(res, b, impl_l, seed, it)
